@@ -2,6 +2,7 @@ import Driver.Slots
 import Driver.Sched
 import Driver.Report
 import Driver.Spell
+import Driver.Hidden
 /-!
 Line-protocol driver: one request per stdin line, one answer per stdout line.
 Unknown or ill-formed requests are answered `bad-op` (never defaulted).
@@ -12,7 +13,8 @@ open SPD
 def handlers : List (List String × (List String → String)) := [
   (slotsCmds, handleSlots),
   (reportCmds, handleReports),
-  (spellCmds, handleSpell)
+  (spellCmds, handleSpell),
+  (hiddenCmds, handleHidden)
 ]
 
 def dispatch (toks : List String) : String :=
